@@ -194,6 +194,8 @@ static int GRIstart(void);
 
 static int GRIgetaid(ri_info_t *img_ptr, int acc_perm);
 
+static int32 GRIdata_length(ri_info_t *img_ptr);
+
 static int GRIisspecial_type(int32 file_id, uint16 tag, uint16 ref);
 
 #ifdef H4_HAVE_LIBSZ /* we have the library */
@@ -2690,7 +2692,7 @@ GRwriteimage(int32 riid, int32 start[2], int32 in_stride[2], int32 count[2], voi
         new_image = TRUE;
     else {
         /* Check if the actual image data is in the file yet, or if just the tag & ref are known */
-        if (Hlength(ri_ptr->gr_ptr->hdf_file_id, ri_ptr->img_tag, ri_ptr->img_ref) > 0)
+        if (GRIdata_length(ri_ptr) > 0)
             new_image = FALSE;
         else
             new_image = TRUE;
@@ -3079,7 +3081,7 @@ GRreadimage(int32 riid, int32 start[2], int32 in_stride[2], int32 count[2], void
     else {
         /* Check if the actual image data is in the file yet, or if just the
            tag & ref are known */
-        if (Hlength(hdf_file_id, ri_ptr->img_tag, ri_ptr->img_ref) > 0)
+        if (GRIdata_length(ri_ptr) > 0)
             image_data = TRUE;
         else
             image_data = FALSE;
@@ -4831,6 +4833,29 @@ GRIstart(void)
 done:
     return ret_value;
 } /* end GRIstart() */
+
+/*--------------------------------------------------------------------------
+ NAME
+    GRIdata_length
+ PURPOSE
+    Number of bytes of image data written so far.
+ DESCRIPTION
+    While the image's access element is open its own idea of the length is
+    asked for: the data of a compressed image stays with the coder until
+    the access ends, and the length recorded in the file is still 0 then.
+--------------------------------------------------------------------------*/
+static int32
+GRIdata_length(ri_info_t *img_ptr)
+{
+    int32 length = 0;
+
+    if (img_ptr->img_aid != 0) {
+        if (Hinquire(img_ptr->img_aid, NULL, NULL, NULL, &length, NULL, NULL, NULL, NULL) == FAIL)
+            return FAIL;
+        return length;
+    }
+    return Hlength(img_ptr->gr_ptr->hdf_file_id, img_ptr->img_tag, img_ptr->img_ref);
+} /* end GRIdata_length() */
 
 /*--------------------------------------------------------------------------
  NAME
